@@ -183,7 +183,15 @@ func (rc *recv) eof(p int32) {
 func runRecv(in sx.Tree) sx.Tree {
 	var parts []kafka.PartitionMetadata
 	for _, p := range in.At(1).Kids {
-		parts = append(parts, kafka.PartitionMetadata{ID: int32(p.Int())})
+		pm := kafka.PartitionMetadata{ID: int32(p.Int())}
+		if in.Len() >= 6 {
+			for _, e := range in.At(5).Kids {
+				if e.Int() == p.Int() {
+					pm.Error = kafka.NewError(kafka.ErrLeaderNotAvailable, "scripted metadata error", false)
+				}
+			}
+		}
+		parts = append(parts, pm)
 	}
 	c := &consumer{}
 	for _, w := range in.At(2).Kids {
